@@ -1,10 +1,21 @@
 """Shared driver for C07 and C08 (family PitCs): one Coq model (coq/PitCs), one Go harness (harness/pitcs), one OCaml
 runner (runner/PitCs).  checks/C07.py and checks/C08.py call run_family(R, pid, ...) and keep the oracle lines of their
 own property; divergences between model and implementation are reported by both (the model serves both theorems)."""
-import hashlib, os, re, shutil
+import hashlib, os, re, shutil, sys
 import vlib
 
 FAM = "PitCs"
+
+
+def translate(R):
+    """Regenerate coq/PitCs/GenConsts.v (reaper period, default lifetime, DNL batch) from the current tree (write-if-changed)."""
+    out = os.path.join(vlib.COQ, FAM, "GenConsts.v")
+    rc, o = vlib.sh([sys.executable, os.path.join(vlib.VERIF, "translators", "pitcs", "consts.py"), vlib.REPO, out], timeout=60)
+    R.coverage.setdefault("translated", {})["coq/PitCs/GenConsts.v"] = o.strip()[:300]
+    if rc != 0:
+        R.proof_problems.append("translation of the PIT/DNL constants from fw/table failed: " + o.strip()[:300])
+        return False
+    return True
 
 
 def build(R):
@@ -128,8 +139,9 @@ def run_family(R, pid, modes, n_quick, n_thorough):
         "time is the virtual clock of testing/synctest (go1.26); the forwarding thread's select loop is emulated by the harness, serving the PIT update signal and the DNL ticker at the instant they become ready",
         "extraction: ExtrOcamlBasic only; N, Z, positive, nat stay Coq datatypes",
     ]
-    R.coverage["trusted_base"] = ["Coq kernel 8.16.1", "Coq extraction + OCaml 4.13.1", "runner/PitCs/driver.ml", "harness/pitcs generator and event loop",
+    R.coverage["trusted_base"] = ["Coq kernel 8.16.1", "translators/pitcs/consts.py (regex over three Go files; a miss is reported, a wrong value shows as a divergence)", "Coq extraction + OCaml 4.13.1", "runner/PitCs/driver.ml", "harness/pitcs generator and event loop",
                                   "go1.26 toolchain incl. testing/synctest", "verif hooks fw/table/zz_verif_pitcs.go, fw/fw/zz_verif_pitcs.go"]
+    translate(R)
     R.prove(FAM)
     if not R.quick:
         R.coqchk(FAM, ["PitCs.Props_" + pid] if os.path.exists(os.path.join(vlib.COQ, FAM, "Props_%s.vo" % pid)) else ["PitCs.Model"])
